@@ -6,6 +6,7 @@ import (
 	"go/constant"
 	"go/token"
 	"go/types"
+	"os"
 	"sort"
 	"strings"
 
@@ -92,6 +93,30 @@ func scanAliasHaz(c *core.Ctx) []ob {
 							}
 						}
 					}
+					// the variable of a type switch over a parameter is the parameter
+					ast.Inspect(cfd.Body, func(x ast.Node) bool {
+						ts, ok := x.(*ast.TypeSwitchStmt)
+						if !ok {
+							return true
+						}
+						as, ok := ts.Assign.(*ast.AssignStmt)
+						if !ok || len(as.Rhs) != 1 {
+							return true
+						}
+						ta, ok := unparen(as.Rhs[0]).(*ast.TypeAssertExpr)
+						if !ok {
+							return true
+						}
+						if r := rootIdent(ta.X); r == nil || !cparams[info.Uses[r]] {
+							return true
+						}
+						for _, cl := range ts.Body.List {
+							if o := info.Implicits[cl]; o != nil {
+								cparams[o] = true
+							}
+						}
+						return true
+					})
 					ast.Inspect(cfd.Body, func(x ast.Node) bool {
 						call, ok := x.(*ast.CallExpr)
 						if !ok || outIdx < 0 || outIdx >= len(call.Args) {
@@ -104,6 +129,12 @@ func scanAliasHaz(c *core.Ctx) []ob {
 						if r := rootIdent(call.Args[outIdx]); r != nil && cparams[info.Uses[r]] {
 							exposed = true
 							for ai, a := range call.Args {
+								// op1.El() is op1
+								if ce, ok := unparen(a).(*ast.CallExpr); ok && len(ce.Args) == 0 {
+									if se, ok := unparen(ce.Fun).(*ast.SelectorExpr); ok && se.Sel.Name == "El" {
+										a = se.X
+									}
+								}
 								if ra := rootIdent(a); ra != nil && cparams[info.Uses[ra]] {
 									exposedIn[ai] = true
 								}
@@ -131,6 +162,13 @@ func scanAliasHaz(c *core.Ctx) []ob {
 					return
 				}
 			}
+		}
+		if d := os.Getenv("LV_DEBUG_ALIASHAZ"); d != "" && strings.Contains(fkey, d) {
+			var nm []string
+			for _, in := range ins {
+				nm = append(nm, in.Name())
+			}
+			fmt.Fprintf(os.Stderr, "ALIASHAZ %s: ins=%v out=%s\n", fkey, nm, outP.Name())
 		}
 		// component reference: root param + index key ("c:<k>" constant, "v" variable)
 		type comp struct {
